@@ -25,7 +25,7 @@ ASSUMPTIONS = ["expose handlers repaint exactly what they are asked to and nothi
                "after scroll_with_children (the property's proviso)",
                "the root window is never hidden, closed or given a geometry other than by a terminal resize",
                "window ids are unique; operations on closed windows or their descendants are not made",
-               "expose handlers may re-enter the window layer only with expose / show / hide / the four restack requests (no close, new, geometry change or scroll from inside a handler)",
+               "expose handlers may re-enter the window layer only with expose / show / hide / the four restack requests and close / drop-the-last-references (no new, geometry change or scroll from inside a handler)",
                "content is single-width ASCII (the abstract render buffer is exact for it)",
                "no int overflow"]
 TRUSTED = ["model coq/WinDefs.v + WinRectSet.v + WinHist.v hand-written after src/window.c and src/rectset.c; abstract per-cell "
@@ -72,6 +72,17 @@ REENTRANT_FIXED = [
     "W G 4 6 A RA 0 1 ex 0 1 1 2 2 N 1 0 1 1 2 2 0 F F F",
     "W G 4 6 A RA 2 1 hi 1 N 1 0 0 0 2 3 0 N 2 0 1 1 3 4 0 F F F",
     "W G 4 6 A RA 1 2 rf 2 ea 2 N 1 0 0 0 3 3 0 N 2 0 1 1 3 4 2 F F F",
+    # handlers that close / destroy their own window (or another one) while the flush walks the tree
+    "W G 4 6 A RA 1 1 xd 1 N 1 0 1 1 2 2 0 F F",
+    "W G 4 6 A RA 1 1 xc 1 N 1 0 1 1 2 2 0 N 2 0 0 0 2 2 2 F F",
+    "W G 4 6 A RA 1 1 xd 1 N 2 0 0 0 2 2 0 N 1 0 1 1 2 2 0 F F",
+    "W G 4 6 A RA 3 1 xd 1 N 1 0 0 0 3 4 0 N 2 0 1 2 2 3 2 N 3 1 0 0 2 2 0 F F F",
+    "W G 4 6 A FA 1 1 xd 1 N 1 0 1 1 2 2 0 F TF 1 F",
+    "W G 4 6 A GA 1 1 xd 1 N 1 0 1 1 2 2 0 F G 1 0 0 2 2 1 E 0 1 1 2 2 F",
+    # a parent told that a child takes the focus destroys / closes that child
+    "W G 4 6 A FC 0 1 xd 1 N 1 0 1 1 2 2 0 FN 0 1 F TF 1 F TF 0 F",
+    "W G 4 6 A FC 0 1 xc 1 N 1 0 1 1 2 2 0 CP 1 0 0 FN 0 1 F TF 1 F F",
+    "W G 4 6 A FC 1 1 xd 2 N 1 0 1 1 3 3 0 N 2 1 0 0 1 1 0 FN 1 1 F TF 2 F TF 1 F",
 ]
 
 
@@ -121,8 +132,10 @@ def gen(tier, seed, info):
                 acts = []
                 for _k in range(rnd.randint(1, 3)):
                     tgt = rnd.choice(ids)
-                    a = rnd.choice(["ea", "ex", "sh", "hi", "sh", "hi", "ra", "rf", "lo", "lb"])
-                    if a in ("sh", "hi", "ra", "rf", "lo", "lb") and tgt == 0:
+                    a = rnd.choice(["ea", "ex", "sh", "hi", "sh", "hi", "ra", "rf", "lo", "lb", "xc", "xd", "xc", "xd"])
+                    if a in ("xc", "xd") and rnd.random() < 0.5:
+                        tgt = w          # its own window
+                    if a in ("sh", "hi", "ra", "rf", "lo", "lb", "xc", "xd") and tgt == 0:
                         a = "ea"
                     if a == "ex":
                         acts.append("ex %d %d %d %d %d" % (tgt, rnd.randint(-1, nl), rnd.randint(-1, nc), rnd.randint(1, nl), rnd.randint(1, nc)))
